@@ -100,8 +100,9 @@ func (es *EndpointShards) CopyEndpoints(portMap map[string]int, ports sets.Set[i
 	es.RLock()
 	defer es.RUnlock()
 	res := map[int][]*IstioEndpoint{}
-	for _, v := range es.Shards {
-		for _, ep := range v {
+	// Visit the shards in sorted key order (as EDS does): the per port endpoint order must not depend on map iteration.
+	for _, shardKey := range es.Keys() {
+		for _, ep := range es.Shards[shardKey] {
 			// use the port name as the key, unless LegacyClusterPortKey is set and takes precedence
 			// In EDS we match on port *name*. But for historical reasons, we match on port number for CDS.
 			var portNum int
